@@ -21,7 +21,7 @@ fn touch<T: ?Sized>(_: &T) {}
 fn touch_mut<T: ?Sized>(_: &mut T) {}
 """
 
-BORROW_CODES = {"E0499", "E0502", "E0505", "E0506", "E0597", "E0716", "E0382", "E0503", "E0515", "E0521", "E0713", "E0501", "E0381"}
+BORROW_CODES = {"E0596", "E0594", "E0499", "E0502", "E0505", "E0506", "E0597", "E0716", "E0382", "E0503", "E0515", "E0521", "E0713", "E0501", "E0381"}
 
 # ---- producers ------------------------------------------------------------------------------------------------------
 # name, kind (shared|excl), pre (statements before; may define views), make (expression producing the handle, from v or the view),
@@ -160,6 +160,33 @@ def programs():
     add("t.into_iter", "escape-scope", "let h;\n{\n    let mut v = mk();\n    let t = v.downcast_mut::<String>().unwrap();\n    h = t.into_iter();\n}\ntouch(&h);", "{\n    let mut v = mk();\n    let t = v.downcast_mut::<String>().unwrap();\n    let h = t.into_iter();\n    touch(&h);\n}")
     add("iter.item", "mutate-source", "let mut v = mk();\nlet mut it = v.iter();\nlet e = it.next().unwrap();\ndrop(it);\nv.clear();\ntouch(&e);", "let mut v = mk();\nlet mut it = v.iter();\nlet e = it.next().unwrap();\ndrop(it);\ntouch(&e);\ndrop(e);\nv.clear();")
     add("splice.item", "outlives-iterator-source", "let mut v = mk();\nlet e;\n{\n    let mut d = v.splice(0..1, [AnyValueWrapper::new(String::new())]);\n    e = d.next().unwrap();\n}\nv.clear();\ntouch(&e);", "let mut v = mk();\n{\n    let mut d = v.splice(0..1, [AnyValueWrapper::new(String::new())]);\n    let e = d.next().unwrap();\n    touch(&e);\n}\nv.clear();")
+    # mutation through a SHARED reference / view must not compile (the control does the same through an exclusive one)
+    erased_mut = [("push", "v.push(AnyValueWrapper::new(String::new()))"), ("insert", "v.insert(0, AnyValueWrapper::new(String::new()))"), ("pop", "drop(v.pop())"),
+                  ("remove", "drop(v.remove(0))"), ("swap_remove", "drop(v.swap_remove(0))"), ("drain", "drop(v.drain(..))"),
+                  ("splice", "drop(v.splice(.., [AnyValueWrapper::new(String::new())]))"), ("clear", "v.clear()"), ("reserve", "v.reserve(1)"), ("shrink_to_fit", "v.shrink_to_fit()"),
+                  ("at_mut", "touch(&v.at_mut(0))"), ("get_mut", "touch(&v.get_mut(0))"), ("iter_mut", "touch(&v.iter_mut())"), ("as_bytes_mut", "touch(v.as_bytes_mut())"),
+                  ("spare_bytes_mut", "touch(v.spare_bytes_mut())"), ("downcast_mut", "touch(&v.downcast_mut::<String>())"), ("set_len", "unsafe { v.set_len(0) }")]
+    for name, call in erased_mut:
+        add(f"&AnyVec.{name}", "mutate-through-shared", f"let mut owner = mk();\nlet v: &V = &owner;\n{call};", f"let mut owner = mk();\nlet v: &mut V = &mut owner;\n{call};")
+    typed_mut = [("push", "t.push(String::new())"), ("insert", "t.insert(0, String::new())"), ("pop", "drop(t.pop())"), ("remove", "drop(t.remove(0))"), ("swap_remove", "drop(t.swap_remove(0))"),
+                 ("drain", "drop(t.drain(..))"), ("splice", "drop(t.splice(.., [String::new()]))"), ("clear", "t.clear()"), ("reserve", "t.reserve(1)"), ("shrink_to", "t.shrink_to(0)"),
+                 ("at_mut", "touch(t.at_mut(0))"), ("get_mut", "touch(&t.get_mut(0))"), ("iter_mut", "touch(&t.iter_mut())"), ("as_mut_slice", "touch(t.as_mut_slice())"),
+                 ("as_mut_ptr", "touch(&t.as_mut_ptr())"), ("spare_capacity_mut", "touch(t.spare_capacity_mut())"), ("set_len", "unsafe { t.set_len(0) }")]
+    for name, call in typed_mut:
+        add(f"AnyVecRef.{name}", "mutate-through-shared", f"let mut v = mk();\nlet mut t = v.downcast_ref::<String>().unwrap();\n{call};", f"let mut v = mk();\nlet mut t = v.downcast_mut::<String>().unwrap();\n{call};")
+        add(f"&AnyVecMut.{name}", "mutate-through-shared", f"let mut v = mk();\nlet mut m = v.downcast_mut::<String>().unwrap();\nlet t = &m;\n{call};", f"let mut v = mk();\nlet mut m = v.downcast_mut::<String>().unwrap();\nlet t = &mut m;\n{call};")
+    for name, mk_h, call in [("ElementRef.downcast_mut", "let h = v.at(0);", "touch(&h.downcast_mut::<String>())"), ("ElementRef.as_bytes_mut", "let h = v.at(0);", "touch(h.as_bytes_mut())"),
+                             ("&ElementMut.downcast_mut", "let m = v.at_mut(0);\nlet h = &m;", "touch(&h.downcast_mut::<String>())"), ("&pop.downcast_mut", "let m = v.pop().unwrap();\nlet h = &m;", "touch(&h.downcast_mut::<String>())"),
+                             ("&IterRef.next", "let m = v.iter();\nlet h = &m;", "touch(&h.next())")]:
+        ctrl_mk = mk_h.replace("v.at(0)", "v.at_mut(0)").replace("let h = &m;", "let h = &mut m;").replace("let m =", "let mut m =").replace("let h = v.at_mut(0);", "let mut h = v.at_mut(0);")
+        add(name, "mutate-through-shared", f"let mut v = mk();\n{mk_h}\n{call};", f"let mut v = mk();\n{ctrl_mk}\n{call};")
+    # unchecked second-level borrows keep the lifetime of the source
+    for name, mk_e, mk_b in [("ElementRef.downcast_ref_unchecked", "let e = v.at(0);", "unsafe { e.downcast_ref_unchecked::<String>() }"),
+                             ("ElementMut.downcast_mut_unchecked", "let mut e = v.at_mut(0);", "unsafe { e.downcast_mut_unchecked::<String>() }"),
+                             ("pop.downcast_ref_unchecked", "let e = v.pop().unwrap();", "unsafe { any_vec::any_value::AnyValueSizeless::downcast_ref_unchecked::<String>(&e) }")]:
+        base = f"let mut v = mk();\n{mk_e}\n"
+        add(name, "mutate-source", f"{base}let mut b = {mk_b};\nv.clear();\ntouch(&b);", f"{base}let mut b = {mk_b};\ntouch(&b);\ndrop(e);\nv.clear();")
+        add(name, "drop-source", f"{base}let mut b = {mk_b};\ndrop(v);\ntouch(&b);", f"{base}let mut b = {mk_b};\ntouch(&b);\ndrop(e);\ndrop(v);")
     add("push(self-element)", "mutate-source", "let mut v = mk();\nlet e = v.at(0);\nv.push(e.lazy_clone());", "let mut v = mk();\nlet mut w = mk();\nlet e = v.at(0);\nw.push(e.lazy_clone());")
     return out
 
